@@ -245,7 +245,8 @@ class HTTPStream:
     async def _send_closed(self) -> None:
         await self.send(EndBody(stream_id=self.stream_id))
         self.state = ASGIHTTPState.CLOSED
-        await self.config.log.access(self.scope, self.response, time() - self.start_time)
+        if not self.closed:  # Otherwise the abnormal closure has been logged
+            await self.config.log.access(self.scope, self.response, time() - self.start_time)
         await self.send(StreamClosed(stream_id=self.stream_id))
 
     async def _send_error_response(self, status_code: int) -> None:
@@ -258,6 +259,7 @@ class HTTPStream:
         )
         await self.send(EndBody(stream_id=self.stream_id))
         self.state = ASGIHTTPState.CLOSED
-        await self.config.log.access(
-            self.scope, {"status": status_code, "headers": []}, time() - self.start_time
-        )
+        if not self.closed:  # Otherwise the abnormal closure has been logged
+            await self.config.log.access(
+                self.scope, {"status": status_code, "headers": []}, time() - self.start_time
+            )
